@@ -214,9 +214,12 @@ class _Lagrangian:
         redY_unique = np.unique(redY)
 
         estimator = None
+        sample_weight_name = self.sample_weight_name
         if len(redY_unique) == 1:
             logger.debug("redY had single value. Using DummyClassifier")
             estimator = DummyClassifier(strategy="constant", constant=redY_unique)
+            # the dummy takes its weights under scikit-learn's name, whatever the user's estimator calls them
+            sample_weight_name = "sample_weight"
             self.n_oracle_calls_dummy_returned += 1
         else:
             # use sklearn.base.clone to clone the estimator.
@@ -227,7 +230,7 @@ class _Lagrangian:
             estimator = clone(estimator=self.estimator, safe=False)
 
         oracle_call_start_time = time()
-        estimator.fit(self.constraints.X, redY, **{self.sample_weight_name: redW})
+        estimator.fit(self.constraints.X, redY, **{sample_weight_name: redW})
         self.oracle_execution_times.append(time() - oracle_call_start_time)
         self.n_oracle_calls += 1
 
